@@ -12,6 +12,7 @@ def q_entry(cx, region, k, comp):
 
 
 class CalcModulation(Contract):
+    replay = lambda self, o, model, pid: {'driver': 'main', 'scenarios': {'C12': ['cadence'], 'C19': ['rfkicks', 'cadence']}.get(pid, ['rfkicks'])}
     name = 'vfps::DynamicRFKickMap::__calcModulation'
     tu = 'src/SM/DynamicRFKickMap.cpp'
     params = ['steps']
@@ -62,6 +63,7 @@ class CalcModulation(Contract):
 
 class DynRFLinearCtor(RFKickMapLinearCtor):
     """the dynamic map must start in exactly the state of the static map of the SAME model"""
+    replay = lambda self, o, model, pid: {'driver': 'main', 'scenarios': {'C12': ['cadence'], 'C19': ['rfkicks', 'cadence']}.get(pid, ['rfkicks'])}
     name = 'vfps::DynamicRFKickMap::DynamicRFKickMap'
     tu = 'src/SM/DynamicRFKickMap.cpp'
     nparams = 15
@@ -85,7 +87,7 @@ class DynRFLinearCtor(RFKickMapLinearCtor):
         g = cx.g('g')
         sp = cx.rf('this._syncphase')
         zero = And(cx.a('phasespread') == 0, cx.a('amplspread') == 0, cx.a('modampl') == 0)
-        out += [('queue', {'C19'}, And(cx.len(NEXT) == cx.a('steps'), cx.f(NEXT + '.head', 'u64') == 0)),
+        out += [('queue', {'C19', 'C12'}, And(cx.len(NEXT) == cx.a('steps'), cx.f(NEXT + '.head', 'u64') == 0)),
                 ('zero_amplitudes', {'C19'}, Implies(And(zero, g >= 0, g < cx.a('steps')), And(q_entry(cx, NEXT, g, 0) == sp, q_entry(cx, NEXT, g, 1) == 1)))]
         return out
 
@@ -130,6 +132,7 @@ def DRF_valid(cx):
 
 class DynCalcKick(Contract):
     """DynamicRFKickMap::_calcKick(): the static kick law evaluated with the FRONT queue entry"""
+    replay = lambda self, o, model, pid: {'driver': 'main', 'scenarios': {'C12': ['cadence'], 'C19': ['rfkicks', 'cadence']}.get(pid, ['rfkicks'])}
     name = 'vfps::DynamicRFKickMap::_calcKick'
     tu = 'src/SM/DynamicRFKickMap.cpp'
     params = []
@@ -177,6 +180,7 @@ class KickMapApplyAbstract(KickMapApply):
 
 
 class DynApply(Contract):
+    replay = lambda self, o, model, pid: {'driver': 'main', 'scenarios': {'C12': ['cadence'], 'C19': ['rfkicks', 'cadence']}.get(pid, ['rfkicks'])}
     name = 'vfps::DynamicRFKickMap::apply'
     tu = 'src/SM/DynamicRFKickMap.cpp'
     params = []
@@ -215,6 +219,7 @@ class DynApply(Contract):
 
 
 class GetPastModulation(Contract):
+    replay = lambda self, o, model, pid: {'driver': 'main', 'scenarios': {'C12': ['cadence'], 'C19': ['rfkicks', 'cadence']}.get(pid, ['rfkicks'])}
     name = 'vfps::DynamicRFKickMap::getPastModulation'
     tu = 'src/SM/DynamicRFKickMap.cpp'
     params = []
